@@ -648,6 +648,20 @@ def assignTo (ev : Expr → St → R (Val × St)) : Expr → Val → St → R St
       | .nil, .str _ => .panic      -- assignment to an entry of a nil map
       | _, _ => .stuck "index assignment"
     | none => .stuck ("unbound " ++ x)
+  | .idx (.sel (.sel (.var x) g) f) i, v, st => do
+    -- `x.g.f[k] = v` with `x.g.f` a map (Go: `m.stats.brokerLeaderLoad[leader]++`)
+    let (iv, st1) ← ev i st
+    match st1.env x with
+    | some r => do
+      let mid ← getField g r
+      let inner ← getField f mid
+      match inner, iv with
+      | .struct fs, .str k => do
+        let r' ← setPath [g, f] (.struct (update k v fs)) r
+        pure (st1.set x r')
+      | .nil, .str _ => .panic      -- assignment to an entry of a nil map
+      | _, _ => .stuck "index assignment"
+    | none => .stuck ("unbound " ++ x)
   | .sel (.sel (.sel (.var x) g2) g) f, v, st =>
     match st.env x with
     | some r => do
